@@ -25,6 +25,9 @@ func runC16(c *Ctx) {
 	// the receiving half of the trip: the server's reader undoes exactly the dot-stuffing textproto's DotWriter applies
 	ruleDotTable(c)
 	ruleDotStructure(c)
+	// ... and the line limiter below it lets every message through whose lines are within the limit, wherever the
+	// network cuts the stream: it counts octet by octet and resets on every LF
+	ruleLineLimitCounting(c)
 
 	R.Rule("R-envelope-per-message", "E2 must-pass-through", "the server clears sender and recipients after every message it has taken (DATA, BDAT; SMTP and LMTP), so the next message on the connection is delivered with exactly the list given for it and its replies are not preceded by those of earlier recipients", 3)
 	obMessageEndResets(c)
